@@ -8,7 +8,7 @@ from fractions import Fraction as F
 from core import Case
 
 PROP = 'C14'
-COQ_TARGETS = ['theories/SchedIv.vo', 'theories/DeferredFacts.vo', 'theories/SchedFacts.vo', 'theories/SchedThms.vo', 'theories/SchedPassive.vo', 'theories/SchedOrder.vo', 'theories/SchedRun.vo', 'theories/SchedC14.vo']
+COQ_TARGETS = ['theories/SchedIv.vo', 'theories/SchedIvFacts.vo', 'theories/DeferredExnFacts.vo', 'theories/DeferredFacts.vo', 'theories/SchedFacts.vo', 'theories/SchedThms.vo', 'theories/SchedPassive.vo', 'theories/SchedOrder.vo', 'theories/SchedRun.vo', 'theories/SchedC14.vo']
 COQ_IMPORTS = 'From Bac Require Import Base Deferred Sched SchedIv.'
 RULE_BASE = ('cases: one case = the whole observable outcome (event trace of fire/call/raise/API-error, heap in pop order with '
         'counters, isScheduled/taskTime of every task, deferredFns) of a history run on the real TaskManager under a virtual '
@@ -1700,8 +1700,9 @@ def cases(rng, tier):
                         key=(repr(cfgx), repr(opsx), 'xvalues'), nontrivial=True,
                         desc={'cfg': repr(cfgx), 'ops': repr(opsx), 'mode': 'int', 'variants (kshift, xshift)': repr(variants)}))
     # (R) recurring tasks: installation histories with interval / offset as attributes (SchedIv.v)
-    for cfgr, opsr in recurring_R_grid():
-        out.append(mk_case2('R-recurring-install-grid', cfgr, opsr, JIT_B))
+    for nth, (cfgr, opsr) in enumerate(recurring_R_grid()):
+        if big or nth % 3 == rng.randrange(3) or len(opsr) < 16:        # quick: a third of the grid (the direct predicate runs all of it)
+            out.append(mk_case2('R-recurring-install-grid', cfgr, opsr, JIT_B))
     got = tries = 0
     while got < (250 if not big else 2500) and tries < 50000:
         tries += 1
